@@ -61,8 +61,17 @@ def _writer_order(E, st, section, version, name_term):
 
 
 def lemmas(E, REG):
+    goals = order_lemmas(E, "C12")
+    # wrap on/off switches between the numpy and the normal engine on re-read: only the latter applies the read
+    # substitutions, so "equal data" needs them to leave every numeric token alone
+    from . import _subs_lemma
+    goals += _subs_lemma.lemmas(E, "C12")
+    return goals
+
+
+def order_lemmas(E, prop):
     class _Cur:
-        key = "lemma:C12"; hooks = {}; local_types = {}; loops = {}; loop_anchor = {}; modifies = {}
+        key = "lemma:" + prop; hooks = {}; local_types = {}; loops = {}; loop_anchor = {}; modifies = {}
         abstract_exprs = False; anyraise = False; reveal = ()
     E.cur = _Cur()
     E.cur_loops = []
@@ -78,10 +87,6 @@ def lemmas(E, REG):
                 st, w = _writer_order(E, st, section, version, m)
                 if not (isinstance(r, VStr) and isinstance(w, VStr)):
                     raise OutOfSubset("order is not a string")
-                goals.append(Goal("lemma:C12:reader-order(%s(m))=writer-order(m);v=%s;section=%s" % (cname, version, section),
-                                  list(st.pc), r.t == w.t, "lemma", "lemma:C12"))
-    # wrap on/off switches between the numpy and the normal engine on re-read: only the latter applies the read
-    # substitutions, so "equal data" needs them to leave every numeric token alone
-    from . import _subs_lemma
-    goals += _subs_lemma.lemmas(E, "C12")
+                goals.append(Goal("lemma:%s:reader-order(%s(m))=writer-order(m);v=%s;section=%s" % (prop, cname, version, section),
+                                  list(st.pc), r.t == w.t, "lemma", "lemma:" + prop))
     return goals
